@@ -385,6 +385,8 @@ class ExprMixin:
                 parts.append(('S', g.src.id, c(g.lo), c(g.hi)))
             elif isinstance(g, Rep):
                 parts.append(('R', g.unit if isinstance(g.unit, (str, bytes)) else id(g.unit), c(g.count)))
+            elif isinstance(g, Num) and g.val is not None:
+                parts.append(('N', c(g.val), g.base, g.minw, g.fill))
             else:
                 parts.append(('O', id(g)))
         c = getattr(s, 'codec', None)
@@ -403,6 +405,9 @@ class ExprMixin:
         const = None if is_none else py
         if x.name in self.binds:
             return self.binds[x.name] == const
+        pre = self.binds.get(('eqs', x.name))
+        if pre and const in pre:
+            return pre[const]
         choices = self.sym_choices(x)
         if choices is not None:
             if const not in choices:
@@ -847,12 +852,13 @@ class ExprMixin:
                     raise Raised(ExcV(KeyError, [key], node=node, stack=self.stack, op=f'missing key {k!r}',
                                       definite=True))
                 return default if default is not None else ConstV(None)
+        kk = self._seq_key(key) if isinstance(key, SeqV) else repr(key)
         if d.default is not None:
-            mk = ('s', repr(key))
+            mk = ('s', kk)
             if mk not in d.memo:
                 d.memo[mk] = d.default(self, key, node, strict)
             return d.memo[mk]
-        mk = ('s', repr(key))
+        mk = ('s', kk)
         if mk not in d.memo:
             d.memo[mk] = SymV(self.fresh(f'{d.desc or "dict"}[{key!r}]'), 'any', tags=value_tags(d), origin=('item', d, key))
             if strict:
